@@ -14,6 +14,7 @@ FLAVOURS = {
     "fault": "Prefer a change that needs a crash, disconnect, error return or cancellation at one particular point (a particular message, a particular position in a batch or stream) to manifest.",
     "twosite": "Prefer a change made of two cooperating edits in different functions (or different files) that each look fine in isolation and only break the property together, or a change whose effect appears only several operations after the step that causes it.",
     "free": "Choose yourself what the change needs in order to manifest - an unusual but valid value or a size, a particular interleaving of two actors, a disconnect or error at one particular point, two cooperating edits that each look fine alone, or a specific multi-step sequence - whichever you find most promising for staying unnoticed. Prefer code paths, functions and input features that the earlier changes listed below did NOT use; read the code the property is anchored in (and its callers and helpers) widely before choosing.",
+    "evasive": "Assume the project is ALSO checked by generic property-based tests written by someone else: random operation histories over a small universe of keys compared with a reference model after every step, exhaustive enumeration of very short histories, fault injection at every message boundary, hand-over schedules, and concurrent workloads under the race detector. Choose a change that such testing is unlikely to hit within a few minutes: for example one that needs a precise combination of several rare conditions, a value or size that a small test universe would not contain, state that accumulates over a long-lived process (counters, caches, timestamps, identifiers), a rarely used but documented API entry point or configuration option, or an interaction between two packages. Read the code widely before choosing, and prefer code paths that the earlier changes listed below did NOT use.",
     "multistep": "Prefer a change that needs a specific multi-step sequence of operations (three or more distinct steps, in a particular order, possibly across sessions or network instances) to manifest.",
 }
 
